@@ -141,6 +141,8 @@ fn classify_invalid(why: &str) -> String {
     }
     // the innermost reason is at the end of the " > " chain; only single-cause chains are classified
     let leaf = why.rsplit(" > ").next().unwrap_or(why);
+    // inside an anyOf the leaf is followed by "]" or " | other reasons"
+    let leaf = leaf.split(" | ").next().unwrap_or(leaf).trim_end_matches(']');
     if let Some(rest) = leaf.strip_prefix("format ") {
         if let Some((fmt, val)) = rest.split_once(" :: ") {
             if fmt == "time" || fmt == "date-time" {
